@@ -241,6 +241,61 @@ def register_unknown_buffer():
         raise TranslatorError('supla_esp_on_register_result: default branch (malloc + ets_snprintf) not recognised')
     return int(ms[0][0]), int(ms[0][1])
 
+# guards of the handlers that the write-set model transcribes: (file, function, extra flags, regex on the normalised body, occurrences).
+# A comparison operator, bound or index expression that changes makes the translator fail (the model would no longer be the code).
+SHAPE_PINS = [
+    ('src/user/supla_esp_devconn.c', 'supla_esp_on_remote_call_received', ['-DVERIF_RETREIVE_CHANNEL_CONFIG'],
+     r'if \(cfg->ChannelNumber < 8\) \{ devconn->channel_function_from_server\[cfg->ChannelNumber\] = cfg->Func; if \(!supla_esp_channel_config_result\(cfg\)\)', 1),
+    ('src/user/supla_esp_devconn.c', 'supla_esp_on_remote_call_received', ['-DVERIF_RETREIVE_CHANNEL_CONFIG'],
+     r'if \(cfgFinish->ChannelNumber < 8\) \{ if \(devconn->runtime_config_channels\[cfgFinish->ChannelNumber\] == WaitingForConfig\)', 1),
+    ('src/user/supla_esp_devconn.c', 'supla_esp_on_remote_call_received', ['-DVERIF_RETREIVE_CHANNEL_CONFIG'],
+     r'for \(int i = 0; i < 8 && i < devconn->channel_count; i\+\+\)', 2),
+    ('src/user/supla_esp_devconn.c', 'supla_esp_channel_config_result', ['-DVERIF_RETREIVE_CHANNEL_CONFIG'],
+     r'if \(result->ChannelNumber >= 0 && result->ChannelNumber < 8\) \{ int staircaseTimeMs = 0;', 1),
+    ('src/user/supla_esp_devconn.c', 'supla_esp_channel_config_result', ['-DVERIF_RETREIVE_CHANNEL_CONFIG'],
+     r'supla_esp_cfg\.Time2\[result->ChannelNumber\] = staircaseTimeMs;', 1),
+    ('src/user/supla_esp_devconn.c', 'supla_esp_channel_config_result', ['-DVERIF_RETREIVE_CHANNEL_CONFIG'],
+     r'result->ConfigSize >= sizeof\(TChannelConfig_RollerShutter\)\) \{ TChannelConfig_RollerShutter \*channelConfig = \(TChannelConfig_RollerShutter \*\)result->Config; '
+     r'channel_config_visualization_type\[result->ChannelNumber\] = channelConfig->VisualizationType;', 1),
+    ('src/user/supla_esp_devconn.c', 'supla_esp_channel_config_result', ['-DVERIF_RETREIVE_CHANNEL_CONFIG'],
+     r'result->ConfigSize >= sizeof\(TChannelConfig_FacadeBlind\)\) \{ TChannelConfig_FacadeBlind \*channelConfig = \(TChannelConfig_FacadeBlind \*\)result->Config; '
+     r'channel_config_visualization_type\[result->ChannelNumber\] = channelConfig->VisualizationType;', 1),
+    ('src/user/supla_esp_devconn.c', 'supla_esp_channel_config_result', ['-DVERIF_RETREIVE_CHANNEL_CONFIG'],
+     r'for \(int i = 0; i < 7; i\+\+\) \{ if \(supla_input_cfg\[i\]\.channel == result->ChannelNumber\)', 1),
+    ('src/user/supla_esp_devconn.c', 'supla_esp_channel_set_value', [],
+     r'for \(a = 0; a < 8; a\+\+\) if \(supla_rs_cfg\[a\]\.up != \(\(void \*\)0\) && supla_rs_cfg\[a\]\.down != \(\(void \*\)0\) && supla_rs_cfg\[a\]\.up->channel == new_value->ChannelNumber\)', 1),
+    ('src/user/supla_esp_devconn.c', 'supla_esp_channel_set_value', [],
+     r'for ?\(a ?= ?0; ?a ?< ?8; ?a\+\+\) if \(supla_relay_cfg\[a\]\.gpio_id != 255 && new_value->ChannelNumber == supla_relay_cfg\[a\]\.channel\)', 1),
+    ('src/user/supla_esp_devconn.c', 'supla_esp_channelgroup_set_value', [],
+     r'new_value\.ChannelNumber = cg_new_value->ChannelNumber; new_value\.DurationMS = cg_new_value->DurationMS;', 1),
+    ('src/user/supla_esp_devconn.c', 'supla_esp_calcfg_request', [],
+     r'for \(int i = 0; i < 8; i\+\+\) \{ if \(supla_rs_cfg\[i\]\.up != \(\(void \*\)0\) && supla_rs_cfg\[i\]\.down != \(\(void \*\)0\) && supla_rs_cfg\[i\]\.up->channel == request->ChannelNumber &&', 2),
+    ('src/user/supla_esp_rs_fb.c', 'supla_esp_gpio_rs_apply_new__times', [],
+     r'if \(idx >= 8 \|\| supla_rs_cfg\[idx\]\.up == \(\(void \*\)0\) \|\| supla_rs_cfg\[idx\]\.down == \(\(void \*\)0\)\) \{ return 0; \}', 1),
+    ('src/user/supla_esp_rs_fb.c', 'supla_esp_gpio_rs_apply_new__times', [],
+     r'supla_esp_cfg\.Time2\[idx\] = close_time_ms; supla_esp_cfg\.Time1\[idx\] = open_time_ms; supla_esp_cfg\.AutoCalOpenTime\[idx\] = 0; supla_esp_cfg\.AutoCalCloseTime\[idx\] = 0; '
+     r'supla_esp_state\.rs_position\[idx\] = 0; supla_esp_state\.tilt\[idx\] = 0;', 1),
+    ('src/user/supla_esp_rs_fb.c', 'supla_esp_gpio_rs_add_task', [], r'^if \(idx < 0 \|\| idx >= 8\) \{ return; \}', 1),
+    ('src/user/supla_esp_gpio.c', 'supla_esp_gpio_relay_set_duration_timer', [],
+     r'^if \(channel < 8 && channel < 8 && supla_esp_cfg\.Time2\[channel\] > 0\)', 1),
+    ('src/user/supla_esp_gpio.c', 'supla_esp_gpio_relay_hi', [],
+     r'for \(a = 0; a < 8; a\+\+\) \{ if \(supla_relay_cfg\[a\]\.gpio_id == port\) \{ if \(supla_relay_cfg\[a\]\.flags & 0x02 \|\| supla_relay_cfg\[a\]\.flags & 0x04\) state = &supla_esp_state\.Relay\[a\];', 1),
+    ('src/user/supla_esp_countdown_timer.c', 'supla_esp_countdown_timer_countdown', [],
+     r'if \(i->channel_number < 8\) \{ supla_esp_state\.Time2Left\[i->channel_number\] = i->time_left_ms; \}', 1),
+    ('src/user/supla_esp_countdown_timer.c', 'supla_esp_countdown_timer_cb', [],
+     r'if \(i->channel_number < 8\) \{ supla_esp_state\.Time2Left\[i->channel_number\] = i->time_left_ms; \}', 1),
+]
+
+def check_shape_pins():
+    cache = {}
+    for (f, fn, extra, rx, n) in SHAPE_PINS:
+        key = (f, tuple(extra))
+        if key not in cache: cache[key] = _preprocess(os.path.join(G.REPO, f), extra)
+        body = _norm(_function_body(cache[key], fn))
+        k = len(re.findall(rx, body))
+        if k != n:
+            raise TranslatorError('%s: guard/index shape changed (%d of %d): %s' % (fn, k, n, rx[:70]))
+
 def _build_table():
     rules = srpc_rules()
     L = []
@@ -261,6 +316,7 @@ def _build_table():
                 fmt += ' %lld %lld %lld'
             row(fmt, *a)
     ra, rb = register_unknown_buffer()
+    check_shape_pins()
     for f, k in config_funcs():
         L.append('  fprintf(stdout, "L CONFIG_FUNCS %d %d\\n");\n' % (f, k))
     for row in button_guards():
@@ -352,5 +408,6 @@ G.GROUPS['C03Consts'] = dict(
         ('FNC_ROOFWINDOW', 'SUPLA_CHANNELFNC_CONTROLLINGTHEROOFWINDOW'), ('FNC_FACADEBLIND', 'SUPLA_CHANNELFNC_CONTROLLINGTHEFACADEBLIND'),
         ('FNC_VERTICALBLIND', 'SUPLA_CHANNELFNC_VERTICAL_BLIND'), ('FNC_ACTIONTRIGGER', 'SUPLA_CHANNELFNC_ACTIONTRIGGER'),
         ('FLAG_CALCFG_RECALIBRATE', 'SUPLA_CHANNEL_FLAG_CALCFG_RECALIBRATE'),
+        ('FLAG_RUNTIME_CONFIG', 'SUPLA_CHANNEL_FLAG_RUNTIME_CHANNEL_CONFIG_UPDATE'), ('FLAG_COUNTDOWN', 'SUPLA_CHANNEL_FLAG_COUNTDOWN_TIMER_SUPPORTED'),
     ],
 )
